@@ -230,3 +230,14 @@ func init() {
 		New:    "\t\tif isProvider(p.payload_c, providerShadowName) ||",
 		Expect: "distinct-binders:p.continuation_c,p.payload_c"})
 }
+
+func init() {
+	addFixture(Fixture{Name: "new-panic-in-typechecker", Rule: "R-PANIC-INVENTORY", File: "process/typechecker.go",
+		Old:    "\tif name.IsSelf {\n\t\treturn nil, fmt.Errorf(\"found self, expected a client\")\n\t}",
+		New:    "\tif name.IsSelf {\n\t\tpanic(\"found self, expected a client\")\n\t}",
+		Expect: "process.consumeName | panic#1"})
+	addFixture(Fixture{Name: "receive-type-positive", Rule: "R-POLARITY-COHERENT", File: "types/polarity.go",
+		Old:    "func (q *ReceiveType) Polarity() Polarity {\n\treturn NEGATIVE",
+		New:    "func (q *ReceiveType) Polarity() Polarity {\n\treturn POSITIVE",
+		Expect: "ReceiveType"})
+}
